@@ -32,7 +32,19 @@ import (
 
 func init() { hx.Register(&hx.Prop{ID: "C16", Run: runC16, Replay: replayC16}) }
 
+// c16Setter returns the LAST bulk setter of the sequence (its request is what the file
+// must hold at the end).
 func c16Setter(c editCase) (gen.EditOp, bool) {
+	for i := len(c.Ops) - 1; i >= 0; i-- {
+		if isBulk(c.Ops[i].Name) {
+			return c.Ops[i], true
+		}
+	}
+	return gen.EditOp{}, false
+}
+
+// c16FirstSetter returns the first bulk setter (the one applied to the parsed file).
+func c16FirstSetter(c editCase) (gen.EditOp, bool) {
 	for _, o := range c.Ops {
 		if isBulk(o.Name) {
 			return o, true
@@ -213,9 +225,24 @@ func c16Comments(c editCase) string {
 	if c.Work {
 		verb = "use"
 	}
+	// a line is kept if every bulk setter of the sequence requests its path
 	wantPath := map[string]bool{}
 	for _, q := range set.Reqs {
 		wantPath[q.Path] = true
+	}
+	for _, o := range c.Ops {
+		if !isBulk(o.Name) {
+			continue
+		}
+		in := map[string]bool{}
+		for _, q := range o.Reqs {
+			in[q.Path] = true
+		}
+		for p := range wantPath {
+			if !in[p] {
+				delete(wantPath, p)
+			}
+		}
 	}
 	run, err := editExec(c)
 	if err != nil || run.panicAt >= 0 {
@@ -273,8 +300,14 @@ func comHas(c *modfile.Comments) bool {
 // applies reports whether the starting file satisfies the clause's hypothesis.
 func c16TwoBlocks(c editCase) (msg string, applies bool) {
 	set, ok := c16Setter(c)
-	if !ok || set.Name != "SetRequireSeparateIndirect" {
-		return "", false
+	nBulk := 0
+	for _, o := range c.Ops {
+		if isBulk(o.Name) {
+			nBulk++
+		}
+	}
+	if !ok || set.Name != "SetRequireSeparateIndirect" || nBulk != 1 {
+		return "", false // the clause speaks about the call applied to the parsed file
 	}
 	st0, err := editParse(false, c.start())
 	if err != nil {
@@ -421,6 +454,36 @@ func c16Draw(c *hx.Ctx) editCase {
 		}
 	}
 	ops = append(ops, gen.EditOp{Name: cleanup})
+	if r.Intn(3) == 0 {
+		// a second bulk setter on the same in-memory file, re-requesting (mostly) the paths
+		// of the first one - including the ones the first call ADDED - with new versions
+		first := ops[len(ops)-2]
+		second := gen.EditOp{Name: first.Name}
+		if !work && r.Intn(2) == 0 {
+			if first.Name == "SetRequire" {
+				second.Name = "SetRequireSeparateIndirect"
+			} else {
+				second.Name = "SetRequire"
+			}
+		}
+		second.Reqs = []gen.ReqArg{}
+		for _, q := range first.Reqs {
+			switch r.Intn(6) {
+			case 0: // dropped
+				continue
+			case 1: // unchanged
+			default:
+				if !work {
+					q.Version = gen.EditVersionFor(r, q.Path)
+					if r.Intn(4) == 0 {
+						q.Indirect = !q.Indirect
+					}
+				}
+			}
+			second.Reqs = append(second.Reqs, q)
+		}
+		ops = append(ops, second, gen.EditOp{Name: cleanup})
+	}
 	return editCase{Work: work, Start: hex.EncodeToString([]byte(s)), Ops: ops}
 }
 
